@@ -38,6 +38,10 @@ def addrsOf (st : St) (w : Wid) : List Addr := (AMap.get st.known w).getD []
 
 def withSpec : List String := ["bal", "utxos", "addrs", "shist", "bhist"]
 def queries : List String := withSpec ++ ["sbu", "hsbu", "shistp", "bhistp"]
+/-- observations of the pending side: MW.Spec.Pending (C09) specifies them for wallets that are ready throughout;
+    a wallet that is importing (Rollback parks its transactions in the pending set although the follower ignores
+    it) or being removed is outside that specification, so these engines compare implementation and model only -/
+def pendingOps : List String := ["sbu", "hsbu", "shistp", "bhistp", "pend", "pins", "pcred", "pgame"]
 
 def useTok : UseRes → String | .ok => "ok" | .unready => "unready" | .err => "err"
 
@@ -169,7 +173,10 @@ def instStepRest (st : St) (two : Bool) (args : List String) : St × String :=
       (st, if withSpec.contains op then "err\terr" else "err")
     else
       let (l', o) := Led.step l args
-      (setI st two { i with led := l' }, o)
+      (setI st two { i with led := l' }, if pendingOps.contains op then (splitOut o).1 else o)
+  | [op] =>
+    let (l', o) := Led.step l args
+    (setI st two { i with led := l' }, if pendingOps.contains op then (splitOut o).1 else o)
   | _ =>
     let (l', o) := Led.step l args
     (setI st two { i with led := l' }, o)
